@@ -57,6 +57,8 @@ fn fold(msgs: &[Vec<Vec<u8>>]) -> BTreeMap<Vec<u8>, i32> {
 
 fn scenario(pr: &Params) -> Verdict {
     e3::set_hash_key(pr.hash_key);
+    // the failing peer's writes fail with EPIPE under even table keys, with ECONNRESET under odd ones
+    let fail_kind = if pr.hash_key % 2 == 0 { std::io::ErrorKind::BrokenPipe } else { std::io::ErrorKind::ConnectionReset };
     world::reset(world::WorldCfg { nested_env: false, yields: true, select: false, policy: pr.policy, coop: false });
     let n = pr.peers + pr.late_joiner as usize;
     let conns: Vec<e3::RawConn> = (0..n).map(|p| e3::raw_conn(&format!("P{}", p))).collect();
@@ -66,7 +68,7 @@ fn scenario(pr: &Params) -> Verdict {
         }
         c.send(&rc::handshake("PUB", Some(format!("PUB{}", p).as_bytes())));
         if pr.failing == Some(p) && !pr.calls_after_attach {
-            world::script_wmodes(c.from_lib, &[WMode::Fail(std::io::ErrorKind::BrokenPipe)]);
+            world::script_wmodes(c.from_lib, &[WMode::Fail(fail_kind)]);
         }
     }
     let sock = SubSocket::new();
@@ -81,7 +83,7 @@ fn scenario(pr: &Params) -> Verdict {
                     world::wait_cond(&format!("attached{}", p)).await;
                 }
                 if let Some(d) = failing_duct {
-                    world::set_wmode(d, WMode::Fail(std::io::ErrorKind::BrokenPipe));
+                    world::set_wmode(d, WMode::Fail(fail_kind));
                 }
             }
             for (i, op) in hist.iter().enumerate() {
@@ -347,6 +349,71 @@ fn deep_batch(prefix: &[u8], nt: u8, max_len: usize) -> Verdict {
 }
 static DEEP_HISTORIES: std::sync::atomic::AtomicU64 = std::sync::atomic::AtomicU64::new(0);
 
+/// Two publisher connections announce the same identity: the first is attached and told the set {a}; the second joins
+/// while the first is still open (`first_open`) or after it has closed without the socket having noticed; then the set
+/// changes (subscribe b, unsubscribe a, subscribe c). The second connection is connected: it must have been told
+/// exactly the current set {b, c}.
+fn twin_scenario(first_open: bool, id_len: usize) -> Verdict {
+    world::reset(world::WorldCfg { nested_env: false, yields: false, select: false, policy: 0, coop: false });
+    let id: Vec<u8> = (0..id_len).map(|i| b'f' + (i % 20) as u8).collect();
+    let first = e3::raw_conn("F1");
+    let second = e3::raw_conn("F2");
+    let other = e3::raw_conn("O");
+    first.send(&rc::handshake("PUB", Some(&id)));
+    second.send(&rc::handshake("PUB", Some(&id)));
+    other.send(&rc::handshake("PUB", Some(b"other")));
+    if !first_open {
+        first.gate("first-attached");
+        first.eof();
+    }
+    let sock = SubSocket::new();
+    let be = sock.backend();
+    world::spawn_app("app", async move {
+        let mut sock = sock;
+        let _ = sock.subscribe("a").await;
+        let r = e3::attach_raw(be.clone(), first).await;
+        world::log(format!("attach(first) -> {}", e3::ok_or_err(&r)));
+        let _ = e3::attach_raw(be.clone(), other).await;
+        world::set_cond("first-attached");
+        let r = e3::attach_raw(be, second).await;
+        world::log(format!("attach(second, same identity) -> {}", e3::ok_or_err(&r)));
+        let _ = sock.subscribe("b").await;
+        let _ = sock.unsubscribe("a").await;
+        let _ = sock.subscribe("c").await;
+        world::set_cond("done");
+        world::wait_cond("never").await;
+        drop(sock);
+    });
+    let end = world::run(e3::HORIZON);
+    let mut v = Verdict::default();
+    v.truncated = end != world::RunEnd::Quiescent;
+    let what = format!("SUB socket subscribed to a; a publisher connection announces a {}-byte identity, a second one announces the same identity while the first {}; then subscribe(b), unsubscribe(a), subscribe(c)", id_len, if first_open { "is still open" } else { "has closed without the socket having noticed" });
+    for p in world::panics() {
+        v.violate("panic", format!("{}: {}", what, p));
+    }
+    if v.truncated {
+        v.violate("spin", format!("{}: no quiescence", what));
+    }
+    if world::panics().is_empty() && !v.truncated {
+        if !world::cond("done") {
+            v.violate("twin/api-stuck", format!("{}: the calls did not all return", what));
+        } else if !world::log_snapshot().iter().any(|l| l.contains("attach(second, same identity) -> Ok")) {
+            v.violate("twin/second-not-admitted", format!("{}: {:?}", what, world::log_snapshot()));
+        } else {
+            let want: std::collections::BTreeSet<Vec<u8>> = [b"b".to_vec(), b"c".to_vec()].into_iter().collect();
+            for (name, c) in [("the second connection under that identity", second), ("the bystander publisher", other)] {
+                let view: std::collections::BTreeSet<Vec<u8>> = fold(&c.tap_messages()).into_iter().filter(|(_, n)| *n > 0).map(|(t, _)| t).collect();
+                if view != want {
+                    let show = |s: &std::collections::BTreeSet<Vec<u8>>| s.iter().map(|t| String::from_utf8_lossy(t).to_string()).collect::<Vec<_>>();
+                    v.violate("twin/peer-view-differs-from-socket", format!("{}: {} holds {:?}, the socket's set is {:?}", what, name, show(&view), show(&want)));
+                }
+            }
+        }
+    }
+    v.outcome_hash = rc::fnv(format!("{}/{}", first_open, id_len).as_bytes());
+    e3::finish(v)
+}
+
 fn pj(p: &Params) -> Value {
     json!({"hist": p.hist, "peers": p.peers, "failing": p.failing, "api_first": p.api_first, "hash_key": p.hash_key, "policy": p.policy, "late_joiner": p.late_joiner, "calls_after_attach": p.calls_after_attach})
 }
@@ -370,6 +437,10 @@ pub fn run(tier: Tier, replay: Option<String>) -> i32 {
     if let Some(path) = replay {
         let v: Value = serde_json::from_str(&std::fs::read_to_string(&path).expect("read")).expect("json");
         return crate::replay::replay_e3(&v, |p| {
+            if p["scenario"] == "twin" {
+                let (fo, il) = (p["first_open"].as_bool()?, p["id_len"].as_u64()? as usize);
+                return Some(std::sync::Arc::new(move || twin_scenario(fo, il)) as zvcore::explore::Scenario);
+            }
             if p["scenario"] == "deep" {
                 let prefix: Vec<u8> = p["prefix"].as_array()?.iter().map(|x| x.as_u64().unwrap_or(0) as u8).collect();
                 let (nt, ml) = (p["topics"].as_u64()? as u8, p["max_len"].as_u64()? as usize);
@@ -444,6 +515,12 @@ pub fn run(tier: Tier, replay: Option<String>) -> i32 {
         let tl = *tl;
         jobs.push(e3::job(format!("C13/scale/{}topics/{}peers/len{}", nt, np, tl), json!({"scenario":"scale","topics":nt,"peers":np,"topic_len":tl}), if tl <= 300 { 1 } else { 0 }, 2_000, move || scale_scenario(nt, np, tl)));
     }
+    // a publisher identity announced by two connections
+    for first_open in [true, false] {
+        for id_len in [1usize, 16, 255] {
+            jobs.push(e3::job(format!("C13/twin/{}/{}", first_open, id_len), json!({"scenario":"twin","first_open":first_open,"id_len":id_len}), 0, 4, move || twin_scenario(first_open, id_len)));
+        }
+    }
     // deep sequential histories, in batches by their first two calls
     for (nt, ml) in tier.pick(vec![(3u8, 7usize), (4, 6), (5, 5)], vec![(3u8, 9usize), (4, 8), (5, 7)]) {
         for a in 0..2 * nt {
@@ -453,6 +530,12 @@ pub fn run(tier: Tier, replay: Option<String>) -> i32 {
             }
         }
     }
+    // the same scenarios with peers that announce an Identity of length 0 / no Identity (every 10th job): the oracle
+    // never looks at the peers' identities, and every connection must still be kept apart
+    let anon: Vec<zvcore::explore::Job> = jobs.iter().filter(|j| !j.name.contains("deep") && !j.name.contains("scale")).step_by(10).flat_map(|j| [e3::anon_copy(j, 1), e3::anon_copy(j, 2)]).collect();
+    ck.cov("scenarios_repeated_with_anonymous_peers", anon.len() as u64);
+    let mut jobs = jobs;
+    jobs.extend(anon);
     e3::run_jobs_into(&mut ck, jobs, false);
     ck.cov("deep_sequential_histories", DEEP_HISTORIES.load(std::sync::atomic::Ordering::Relaxed));
     let ex = ck.coverage.get("e3_executions").and_then(|v| v.as_u64()).unwrap_or(0);
